@@ -157,6 +157,214 @@ pub fn c10(o: &mut O, tier: &str, rng: &mut Rng) {
         }
         observe_query(o, &q, None, "c10,malformed_stream");
     }
+    // malformed stream, second alphabet: signed / blank-padded / prefixed escape bodies (what a
+    // lenient integer parser would let through), escapes followed by multi-byte characters,
+    // escapes of '%' itself (decoding twice), blanks around the separators
+    let pieces2: [&str; 40] = [
+        "a", "=", "&", "%+A", "%+1", "%-1", "%+f", "%-F", "% 1", "%1 ", "%\t1", "%1\t", "%0x", "%0X", "%x1", "%+", "%-", "%+-", "%\u{e9}", "%A\u{e9}",
+        "%\u{20ac}", "%1\u{20ac}", "%\u{1F600}", "%2541", "%25", "%252B", "%2B", "%2b", "+", "%20", " ", "\t", "%00", "%0", "%000", "%41", "\u{e9}", "%C3%A9", "%c3", ";",
+    ];
+    for _ in 0..m {
+        let mut q = String::new();
+        for _ in 0..(1 + rng.below(7)) {
+            let pc: &str = *rng.pick(&pieces2[..]);
+            q.push_str(pc);
+        }
+        observe_query(o, &q, None, "c10,malformed_stream2");
+    }
+    c10_escape_bodies(o, tier);
+    c10_enumerated(o);
+    c10_continuations(o);
+}
+
+/// Every two-character escape body `%XY`, in a name and in a value (the query-side twin of the
+/// path family's `escape_sweep`), and the escape bodies on which integer parsers are lenient.
+fn c10_escape_bodies(o: &mut O, tier: &str) {
+    let full = tier != "quick";
+    let alpha: Vec<u8> = if full { (0u8..128).collect() } else { b"0123456789abcdefABCDEFgG@`/:%+ -.\x00\x7f~zZ".to_vec() };
+    for &x in &alpha {
+        for &y in &alpha {
+            observe_query(o, &format!("n=v%{}{}", x as char, y as char), None, "c10,escape_pair_value");
+            if full || (x ^ y) & 1 == 0 {
+                observe_query(o, &format!("n%{}{}=v", x as char, y as char), None, "c10,escape_pair_name");
+            }
+        }
+    }
+    // one hex digit next to a sign, a blank, a radix prefix or a digit separator, both orders, at the
+    // end of the text and followed by more text
+    let hexd = b"0123456789abcdefABCDEF";
+    let odd = ["+", "-", " ", "\t", "\n", "\r", "_", "x", "X", "#", "$", ".", "\u{e9}", "\u{ff11}", "\u{661}"];
+    for &d in hexd.iter() {
+        for s in odd.iter() {
+            let d = d as char;
+            observe_query(o, &format!("a=%{}{}", s, d), None, "c10,lenient_escape");
+            observe_query(o, &format!("a=%{}{}", d, s), None, "c10,lenient_escape");
+            observe_query(o, &format!("%{}{}b=1", s, d), None, "c10,lenient_escape");
+            observe_query(o, &format!("k=x%{}{}y&z=1", s, d), None, "c10,lenient_escape");
+        }
+    }
+    // three-character bodies (a parser that reads "up to the next non-digit"), leading zeros
+    for body in ["041", "0041", "+41", "-41", "4 1", " 41", "41 ", "0x41", "u0041", "%41", "4%31", "+4", "+", "-", "4", "", "\u{e9}", "4\u{e9}", "\u{e9}4", "\u{20ac}", "4\u{20ac}", "\u{1F600}", "4\u{1F600}"] {
+        observe_query(o, &format!("a=%{}", body), None, "c10,odd_escape_body");
+        observe_query(o, &format!("%{}=a", body), None, "c10,odd_escape_body");
+        observe_query(o, &format!("a=%{}&b=2", body), None, "c10,odd_escape_body");
+    }
+}
+
+/// Raw query strings whose decoded pair multiset is written down by hand; the expected canonical
+/// form is the reference signer's rendering of those pairs minus the exact name `X-Amz-Signature`.
+fn c10_enumerated(o: &mut O) {
+    fn p(k: &str, v: &str) -> (Vec<u8>, Vec<u8>) {
+        (k.as_bytes().to_vec(), v.as_bytes().to_vec())
+    }
+    let sig = "X-Amz-Signature";
+    let mut cases: Vec<(String, Vec<(Vec<u8>, Vec<u8>)>, &str)> = vec![
+        // --- only the exact name is the signature parameter
+        ("x-amz-signature=abc".into(), vec![p("x-amz-signature", "abc")], "sig_case"),
+        ("X-AMZ-SIGNATURE=abc&a=1".into(), vec![p("X-AMZ-SIGNATURE", "abc"), p("a", "1")], "sig_case"),
+        ("X-Amz-signature=1".into(), vec![p("X-Amz-signature", "1")], "sig_case"),
+        ("x-Amz-Signature=1".into(), vec![p("x-Amz-Signature", "1")], "sig_case"),
+        ("X-amz-Signature=".into(), vec![p("X-amz-Signature", "")], "sig_case"),
+        ("X-Amz-SignaturE".into(), vec![p("X-Amz-SignaturE", "")], "sig_case"),
+        ("X-Amz-Signature=abc&x-amz-signature=def".into(), vec![p(sig, "abc"), p("x-amz-signature", "def")], "sig_case"),
+        ("x-amz-signature=def&X-Amz-Signature=abc&X-AMZ-SIGNATURE=ghi".into(), vec![p("x-amz-signature", "def"), p(sig, "abc"), p("X-AMZ-SIGNATURE", "ghi")], "sig_case"),
+        ("X-Amz-Signature%20=1".into(), vec![p("X-Amz-Signature ", "1")], "sig_near"),
+        ("X-Amz-Signature+=1".into(), vec![p("X-Amz-Signature ", "1")], "sig_near"),
+        ("+X-Amz-Signature=1".into(), vec![p(" X-Amz-Signature", "1")], "sig_near"),
+        ("%09X-Amz-Signature=1".into(), vec![p("\tX-Amz-Signature", "1")], "sig_near"),
+        ("X-Amz-Signature%0A=1".into(), vec![p("X-Amz-Signature\n", "1")], "sig_near"),
+        ("X-Amz-Signature%00=1".into(), vec![p("X-Amz-Signature\0", "1")], "sig_near"),
+        ("X-Amz-Signature2=1".into(), vec![p("X-Amz-Signature2", "1")], "sig_near"),
+        ("X-Amz-Signatur=1".into(), vec![p("X-Amz-Signatur", "1")], "sig_near"),
+        ("-Amz-Signature=1".into(), vec![p("-Amz-Signature", "1")], "sig_near"),
+        ("XX-Amz-Signature=1".into(), vec![p("XX-Amz-Signature", "1")], "sig_near"),
+        ("X-Amz-Signature-=1&X-Amz-Signature.=2&X-Amz-Signature%3D=3".into(), vec![p("X-Amz-Signature-", "1"), p("X-Amz-Signature.", "2"), p("X-Amz-Signature=", "3")], "sig_near"),
+        ("X-Amz-Signatures=1&X-Amz-Signature=2&X-Amz-Signatur=3".into(), vec![p("X-Amz-Signatures", "1"), p(sig, "2"), p("X-Amz-Signatur", "3")], "sig_near"),
+        ("a=X-Amz-Signature&X-Amz-Signature=a".into(), vec![p("a", sig), p(sig, "a")], "sig_near"),
+        ("=X-Amz-Signature".into(), vec![p("", sig)], "sig_near"),
+        // --- the name is compared after decoding
+        ("X%2DAmz%2DSignature=abc&b=2".into(), vec![p(sig, "abc"), p("b", "2")], "sig_spelled"),
+        ("%58-Amz-Signature=1".into(), vec![p(sig, "1")], "sig_spelled"),
+        ("X-Amz-Signatur%65=1&c=3".into(), vec![p(sig, "1"), p("c", "3")], "sig_spelled"),
+        ("%78-amz-signature=1".into(), vec![p("x-amz-signature", "1")], "sig_spelled"),
+        ("X-Amz-Signature=a&X-Amz-Signature=b&X-Amz-Signature".into(), vec![p(sig, "a"), p(sig, "b"), p(sig, "")], "sig_repeated"),
+        ("X-Amz-Signature=&a=1&X-Amz-Signature=".into(), vec![p(sig, ""), p("a", "1"), p(sig, "")], "sig_repeated"),
+        // --- the other authentication parameters stay in, in any letter case
+        (
+            "X-Amz-Algorithm=AWS4-HMAC-SHA256&X-Amz-Credential=a%2Fb&X-Amz-Date=d&X-Amz-SignedHeaders=host&X-Amz-Security-Token=t&X-Amz-Signature=s".into(),
+            vec![p("X-Amz-Algorithm", "AWS4-HMAC-SHA256"), p("X-Amz-Credential", "a/b"), p("X-Amz-Date", "d"), p("X-Amz-SignedHeaders", "host"), p("X-Amz-Security-Token", "t"), p(sig, "s")],
+            "amz_params",
+        ),
+        (
+            "x-amz-algorithm=AWS4-HMAC-SHA256&x-amz-credential=a&x-amz-date=d&x-amz-signedheaders=host&x-amz-security-token=t&x-amz-signature=s".into(),
+            vec![p("x-amz-algorithm", "AWS4-HMAC-SHA256"), p("x-amz-credential", "a"), p("x-amz-date", "d"), p("x-amz-signedheaders", "host"), p("x-amz-security-token", "t"), p("x-amz-signature", "s")],
+            "amz_params",
+        ),
+        ("X-Amz-Date=1&X-AMZ-DATE=2&x-amz-date=3&X-Amz-date=4".into(), vec![p("X-Amz-Date", "1"), p("X-AMZ-DATE", "2"), p("x-amz-date", "3"), p("X-Amz-date", "4")], "amz_params"),
+        // --- split at the first '=' only
+        ("a=b=c=d".into(), vec![p("a", "b=c=d")], "equals"),
+        ("a==b".into(), vec![p("a", "=b")], "equals"),
+        ("=a=b".into(), vec![p("", "a=b")], "equals"),
+        ("a=b=".into(), vec![p("a", "b=")], "equals"),
+        ("===".into(), vec![p("", "==")], "equals"),
+        ("a=&a".into(), vec![p("a", ""), p("a", "")], "equals"),
+        ("a=b%3Dc&a%3Db=c".into(), vec![p("a", "b=c"), p("a=b", "c")], "equals"),
+        // --- multiset, not set: exact duplicates stay
+        ("a=1&a=1&a=1".into(), vec![p("a", "1"), p("a", "1"), p("a", "1")], "duplicates"),
+        ("=&=&=".into(), vec![p("", ""), p("", ""), p("", "")], "duplicates"),
+        ("a&a=&a".into(), vec![p("a", ""), p("a", ""), p("a", "")], "duplicates"),
+        ("%61=1&a=%31".into(), vec![p("a", "1"), p("a", "1")], "duplicates"),
+        ("a=+&a=%20&a=+".into(), vec![p("a", " "), p("a", " "), p("a", " ")], "duplicates"),
+        ("a=%e2%82%ac&a=%E2%82%AC&a=\u{20ac}".into(), vec![p("a", "\u{20ac}"), p("a", "\u{20ac}"), p("a", "\u{20ac}")], "duplicates"),
+        ("b=2&a=1&b=2&a=1".into(), vec![p("b", "2"), p("a", "1"), p("b", "2"), p("a", "1")], "duplicates"),
+        // --- separators
+        ("a=1&&&b=2&".into(), vec![p("a", "1"), p("b", "2")], "separators"),
+        ("&&&".into(), vec![], "separators"),
+        ("&=&".into(), vec![p("", "")], "separators"),
+        ("a=1;b=2".into(), vec![p("a", "1;b=2")], "separators"),
+        ("a=1%26b=2".into(), vec![p("a", "1&b=2")], "separators"),
+        ("a=1,b=2&c".into(), vec![p("a", "1,b=2"), p("c", "")], "separators"),
+        // --- order: encoded name, then encoded value, byte order; names that are prefixes of one another
+        (
+            "a=1&a-b=2&a.b=3&a0=4&a%20b=5&a%21=6&a%7E=7&aa=8&a=0&a%3D=9&a%26=10&a,=11&A=12&a_=13&a%25=14".into(),
+            vec![p("a", "1"), p("a-b", "2"), p("a.b", "3"), p("a0", "4"), p("a b", "5"), p("a!", "6"), p("a~", "7"), p("aa", "8"), p("a", "0"), p("a=", "9"), p("a&", "10"), p("a,", "11"), p("A", "12"), p("a_", "13"), p("a%", "14")],
+            "order",
+        ),
+        ("a=b&a=B&a=%20&a=&a=~&a=%7F&a=%C3%A9&a=0&a=-".into(), vec![p("a", "b"), p("a", "B"), p("a", " "), p("a", ""), p("a", "~"), p("a", "\x7f"), p("a", "\u{e9}"), p("a", "0"), p("a", "-")], "order"),
+        ("a=10&a=9&a=1&a=100&a=09".into(), vec![p("a", "10"), p("a", "9"), p("a", "1"), p("a", "100"), p("a", "09")], "order"),
+        ("z=1&Z=1&%7A=0&%5a=0".into(), vec![p("z", "1"), p("Z", "1"), p("z", "0"), p("Z", "0")], "order"),
+        ("ab=&a=b".into(), vec![p("ab", ""), p("a", "b")], "order"),
+        ("a=&a%3D=&a==".into(), vec![p("a", ""), p("a=", ""), p("a", "=")], "order"),
+        // --- blanks are data
+        ("a%20=1&%20a=2&a=%201&a=1%20&a%09=3&%C2%A0a=4&a=%C2%A0&a+=5&+a=6".into(), vec![p("a ", "1"), p(" a", "2"), p("a", " 1"), p("a", "1 "), p("a\t", "3"), p("\u{a0}a", "4"), p("a", "\u{a0}"), p("a ", "5"), p(" a", "6")], "blanks"),
+        ("+=+".into(), vec![p(" ", " ")], "blanks"),
+        ("%20=%20&+=+&%20=+".into(), vec![p(" ", " "), p(" ", " "), p(" ", " ")], "blanks"),
+        ("a=%0A&a=%0D%0A&%00=%00".into(), vec![p("a", "\n"), p("a", "\r\n"), p("\0", "\0")], "blanks"),
+        // --- decoded exactly once
+        ("%2541=1".into(), vec![p("%41", "1")], "once"),
+        ("a=%2541&a=%41&a=A".into(), vec![p("a", "%41"), p("a", "A"), p("a", "A")], "once"),
+        ("a=%252B&a=%2B&a=+".into(), vec![p("a", "%2B"), p("a", "+"), p("a", " ")], "once"),
+        ("a=%2520&a=%20".into(), vec![p("a", "%20"), p("a", " ")], "once"),
+        ("a=%25".into(), vec![p("a", "%")], "once"),
+        ("a=%0041".into(), vec![p("a", "\x0041")], "once"),
+    ];
+    // letter-case variants of every authentication parameter name, next to the exact one
+    for name in ["X-Amz-Signature", "X-Amz-Algorithm", "X-Amz-Credential", "X-Amz-Date", "X-Amz-SignedHeaders", "X-Amz-Security-Token"] {
+        for variant in case_variants(name) {
+            cases.push((format!("{}=v&{}=w&k=1", variant, name), vec![p(&variant, "v"), p(name, "w"), p("k", "1")], "amz_case_variant"));
+        }
+    }
+    for (q, pairs, tag) in cases {
+        let filtered: Vec<(Vec<u8>, Vec<u8>)> = pairs.iter().filter(|kv| kv.0 != sig.as_bytes()).cloned().collect();
+        let expected = signer::canonical_query(&filtered);
+        observe_query(o, &q, Some(Some(expected)), &format!("c10,enumerated,{}", tag));
+    }
+}
+
+/// Letter-case variants of an ASCII name (never the name itself).
+pub fn case_variants(name: &str) -> Vec<String> {
+    let mut out = vec![name.to_ascii_lowercase(), name.to_ascii_uppercase()];
+    // first letter flipped, last letter flipped, one inner letter flipped
+    let flip = |i: usize| -> String {
+        name.char_indices().map(|(k, c)| if k == i { if c.is_ascii_uppercase() { c.to_ascii_lowercase() } else { c.to_ascii_uppercase() } } else { c }).collect()
+    };
+    out.push(flip(0));
+    out.push(flip(name.len() - 1));
+    if let Some(i) = name.rfind('-') {
+        out.push(flip(i + 1));
+    }
+    out.retain(|v| v != name);
+    out.dedup();
+    out
+}
+
+/// Sort keys: a name (value) and the same name (value) continued by each byte value, so that the
+/// continuation byte is compared with the end of the shorter string and with '=' / '&' of a
+/// rendered-string sort; expected form from the reference signer.
+fn c10_continuations(o: &mut O) {
+    let sp = Spelling::canonical();
+    let mut rng = Rng::new(10);
+    for b in 0u32..=255 {
+        let b = b as u8;
+        let sets: [Vec<(Vec<u8>, Vec<u8>)>; 3] = [
+            vec![(vec![b'a', b], b"2".to_vec()), (b"a".to_vec(), b"1".to_vec()), (b"a".to_vec(), b"3".to_vec())],
+            vec![(b"a".to_vec(), vec![b'b', b]), (b"a".to_vec(), b"b".to_vec()), (b"a".to_vec(), b"c".to_vec())],
+            vec![(vec![b], b"".to_vec()), (b"".to_vec(), vec![b]), (vec![b], vec![b]), (b"".to_vec(), b"".to_vec())],
+        ];
+        for (k, pairs) in sets.iter().enumerate() {
+            let mut q = Vec::new();
+            for (j, (n, v)) in pairs.iter().enumerate() {
+                if j > 0 {
+                    q.push(b'&');
+                }
+                q.extend(spell_bytes(n, &sp, &mut rng, true));
+                q.push(b'=');
+                q.extend(spell_bytes(v, &sp, &mut rng, true));
+            }
+            let expected = signer::canonical_query(pairs);
+            observe_query(o, &String::from_utf8(q).unwrap(), Some(Some(expected)), &format!("c10,continuation{}", k));
+        }
+    }
 }
 
 // ---------------------------------------------------------------------------------------------
@@ -178,16 +386,32 @@ fn capacity_class(m: usize, s: &str) -> Option<u8> {
         3 => class_of::<3>(s),
         4 => class_of::<4>(s),
         5 => class_of::<5>(s),
+        6 => class_of::<6>(s),
+        7 => class_of::<7>(s),
         8 => class_of::<8>(s),
+        9 => class_of::<9>(s),
         16 => class_of::<16>(s),
+        32 => class_of::<32>(s),
+        40 => class_of::<40>(s),
         43 => class_of::<43>(s),
         44 => class_of::<44>(s),
         45 => class_of::<45>(s),
+        48 => class_of::<48>(s),
+        63 => class_of::<63>(s),
         64 => class_of::<64>(s),
+        65 => class_of::<65>(s),
         100 => class_of::<100>(s),
         _ => return None,
     })
 }
+
+/// Characters on which `trim`, `trim_end`, `trim_ascii`, `trim_matches` and `split_whitespace`
+/// disagree with "keep every byte": ASCII blanks and controls, every Unicode White_Space code
+/// point class, and look-alikes that are *not* white space (U+200B, U+FEFF, NUL, US).
+pub const BLANKS: [&str; 24] = [
+    " ", "\t", "\n", "\r", "\r\n", "\x0b", "\x0c", "\u{85}", "\u{a0}", "\u{1680}", "\u{2000}", "\u{2003}", "\u{200a}", "\u{2028}", "\u{2029}", "\u{202f}",
+    "\u{205f}", "\u{3000}", "\u{200b}", "\u{feff}", "\0", "\x1f", "\x1c", "  ",
+];
 
 fn observe_key(o: &mut O, secret: &str, ymd: (i32, u32, u32), region: &str, service: &str, tag: &str) {
     let date = match NaiveDate::from_ymd_opt(ymd.0, ymd.1, ymd.2) {
@@ -334,14 +558,191 @@ pub fn c06(o: &mut O, tier: &str, rng: &mut Rng) {
         let sv: &str = *rng.pick(&services[..]);
         observe_key(o, &s, (y, mo, d), rg, sv, "c06,random");
     }
-    // every capacity, secrets of length 0..=100
-    for m in [0usize, 1, 2, 3, 4, 5, 8, 16, 43, 44, 45, 64, 100] {
-        for len in 0..=100usize {
-            if tier == "quick" && len > 8 && len % 4 != 0 && !(m >= 4 && (len + 5 >= m && len <= m + 1)) {
+    c06_blank_secrets(o, tier);
+    c06_odd_inputs(o, tier);
+    capacity_cases(o, tier);
+}
+
+/// A string of exactly `total` bytes made of `fill` characters around `w` (None if it cannot fit).
+fn padded(w: &str, total: usize, lead: bool) -> Option<String> {
+    if w.len() > total {
+        return None;
+    }
+    let body = "wJalrXUtnFEMI/K7MDENG+bPxRfiCYEXAMPLEKEYx".chars().cycle().take(total - w.len()).collect::<String>();
+    Some(if lead { format!("{}{}", w, body) } else { format!("{}{}", body, w) })
+}
+
+/// Secrets that begin, end or are interrupted by blanks: every byte is part of the secret (read
+/// back, HMAC chain) and counts towards the capacity.
+fn c06_blank_secrets(o: &mut O, tier: &str) {
+    let d = (2015, 8, 30);
+    let quick = tier == "quick";
+    for (wi, w) in BLANKS.iter().enumerate() {
+        let mut forms: Vec<String> = vec![format!("hunter2{}", w), format!("{}hunter2", w), w.to_string()];
+        if !quick || wi % 2 == 0 {
+            forms.push(format!("hunter2{}{}", w, w));
+            forms.push(format!("{}hunter2{}", w, w));
+            forms.push(format!("hun{}ter2", w));
+        }
+        // at the capacity of the default key type: 40 bytes fit, 41 do not
+        for total in [39usize, 40, 41, 42] {
+            if quick && (total == 39 || total == 42) && wi % 3 != 0 {
+                continue;
+            }
+            for lead in [false, true] {
+                if let Some(s) = padded(w, total, lead) {
+                    forms.push(s);
+                }
+            }
+        }
+        // the blank alone fills / overfills the key
+        if w.len() == 1 {
+            forms.push(w.repeat(40));
+            forms.push(w.repeat(41));
+        }
+        for s in forms {
+            observe_key(o, &s, d, "us-east-1", "iam", "c06,blank_secret");
+        }
+    }
+}
+
+/// Further inputs on which look-alike library calls differ: byte length vs character count at
+/// the capacity, NUL bytes next to the zero padding, a secret that itself begins with the
+/// "AWS4" prefix, letter case, region / service strings with blanks and case variants, dates
+/// whose fields need zero padding.
+fn c06_odd_inputs(o: &mut O, tier: &str) {
+    let d = (2015, 8, 30);
+    let aws = "wJalrXUtnFEMI/K7MDENG+bPxRfiCYEXAMPLEKEY";
+    let mut secrets: Vec<String> = vec![
+        // 40 characters but more than 40 bytes; 40 bytes in fewer characters
+        format!("{}\u{e9}", &aws[..39]),
+        format!("\u{e9}{}", &aws[..39]),
+        "\u{e9}".repeat(20),
+        "\u{e9}".repeat(21),
+        "\u{e9}".repeat(40),
+        format!("{}\u{20ac}", &aws[..37]),
+        format!("{}\u{20ac}", &aws[..38]),
+        format!("{}\u{1F600}", &aws[..36]),
+        format!("{}\u{1F600}", &aws[..37]),
+        "\u{1F600}".repeat(10),
+        "\u{1F600}".repeat(11),
+        "\u{20ac}".repeat(13),
+        "\u{20ac}".repeat(14),
+        // NUL bytes: indistinguishable from the padding unless the length is kept
+        "\0".to_string(),
+        "abc\0".to_string(),
+        "abc\0\0\0".to_string(),
+        "\0abc".to_string(),
+        "a\0b".to_string(),
+        "\0".repeat(39),
+        "\0".repeat(40),
+        "\0".repeat(41),
+        format!("{}\0", &aws[..39]),
+        format!("{}\0", aws),
+        // the prefix is added, never recognised
+        "AWS4".to_string(),
+        "AWS4abc".to_string(),
+        "AWS4AWS4".to_string(),
+        format!("AWS4{}", &aws[..36]),
+        format!("AWS4{}", &aws[..37]),
+        "aws4secret".to_string(),
+        // letter case is part of the secret
+        aws.to_ascii_lowercase(),
+        aws.to_ascii_uppercase(),
+        "Secret".to_string(),
+        "secret".to_string(),
+        "SECRET".to_string(),
+        "\u{130}stanbul".to_string(),
+        "stra\u{df}e".to_string(),
+        "\u{212a}elvin".to_string(),
+        // combining / normalisation forms are different byte strings
+        "caf\u{e9}".to_string(),
+        "cafe\u{301}".to_string(),
+        "\u{ff21}\u{ff22}".to_string(),
+    ];
+    if tier != "quick" {
+        for n in 36..=44usize {
+            secrets.push("\u{e9}".repeat(n / 2) + &"z".repeat(n % 2));
+            secrets.push(format!("{}{}", "z".repeat(n.saturating_sub(3)), "\u{20ac}"));
+        }
+    }
+    for s in secrets.iter() {
+        observe_key(o, s, d, "us-east-1", "iam", "c06,odd_secret");
+    }
+    // region / service: every byte is hashed as given
+    let scopes = [
+        "us-east-1", " us-east-1", "us-east-1 ", "us-east-1\n", "us-east-1\t", "\tus-east-1", "us-east-1\0", "us- east-1", "US-EAST-1", "Us-East-1", "us-east-1\u{a0}",
+        "\u{a0}us-east-1", "us-east-1\u{3000}", "us-east-1\r\n", "us-east-1/", "/us-east-1", "us-east-1/iam", "us-east-", "s-east-1", " ", "\0", "aws4_request", "AWS4",
+        "us-east-1\u{200b}", "\u{feff}us-east-1", "\u{130}", "\u{212a}",
+    ];
+    for (i, sc) in scopes.iter().enumerate() {
+        observe_key(o, aws, d, sc, "iam", "c06,odd_region");
+        observe_key(o, if i % 2 == 0 { "short" } else { aws }, d, "us-east-1", sc, "c06,odd_service");
+        if tier != "quick" || i % 4 == 0 {
+            observe_key(o, "short", d, sc, sc, "c06,odd_region_service");
+        }
+    }
+    // dates: zero padding of every field, first / last day of months and years
+    let dates = [
+        (0, 1, 1), (0, 12, 31), (1, 1, 1), (9, 9, 9), (10, 1, 1), (99, 12, 31), (100, 1, 1), (999, 12, 31), (1000, 1, 1), (1582, 10, 4), (1582, 10, 15), (1900, 2, 28), (1900, 3, 1),
+        (1969, 12, 31), (1970, 1, 1), (2000, 2, 29), (2015, 1, 1), (2015, 1, 31), (2015, 9, 1), (2015, 10, 1), (2015, 10, 10), (2015, 12, 31), (2016, 2, 29), (2016, 12, 31), (2038, 1, 19),
+        (2038, 1, 20), (2100, 2, 28), (2100, 3, 1), (9999, 1, 1), (9999, 12, 31), (4, 2, 29), (400, 2, 29), (8, 8, 8), (123, 4, 5), (1234, 5, 6), (2015, 11, 11), (2015, 2, 28),
+    ];
+    for (i, dt) in dates.iter().enumerate() {
+        observe_key(o, if i % 2 == 0 { aws } else { "k" }, *dt, "us-east-1", "iam", "c06,date_padding");
+    }
+}
+
+/// `KSecretKey::<M>::from_str` for every instantiated capacity M: secrets of every length around
+/// the capacity, blanks and multi-byte characters at the boundary.  Part of C06 (capacity clause)
+/// and of C08 (no capacity and no length panics).
+pub fn capacity_cases(o: &mut O, tier: &str) {
+    let caps = [0usize, 1, 2, 3, 4, 5, 6, 7, 8, 9, 16, 32, 40, 43, 44, 45, 48, 63, 64, 65, 100];
+    for m in caps {
+        for len in 0..=104usize {
+            if tier == "quick" && len > 8 && len % 8 != 0 && !(len + 6 >= m && len <= m + 2) {
                 continue;
             }
             observe_capacity(o, m, &"k".repeat(len));
         }
+        let room = m as i64 - 4;
+        // a blank (or multi-byte character) as the last / first bytes, exactly filling and overfilling
+        for w in [" ", "\n", "\t", "\0", "\u{a0}", "\u{3000}", "\u{e9}", "\u{20ac}", "\u{1F600}", "\r\n"] {
+            observe_capacity(o, m, w);
+            for total in [room - 1, room, room + 1, room + 2] {
+                if total < w.len() as i64 || total < 0 {
+                    continue;
+                }
+                let body = "k".repeat(total as usize - w.len());
+                observe_capacity(o, m, &format!("{}{}", body, w));
+                observe_capacity(o, m, &format!("{}{}", w, body));
+            }
+            // as many characters as there is room, but more bytes
+            if room > 0 && w.len() > 1 {
+                observe_capacity(o, m, &w.repeat(room as usize));
+                observe_capacity(o, m, &w.repeat((room as usize + w.len() - 1) / w.len()));
+                observe_capacity(o, m, &w.repeat(room as usize / w.len()));
+            }
+        }
+        observe_capacity(o, m, "AWS4");
+        observe_capacity(o, m, &"\0".repeat(m));
+        observe_capacity(o, m, &" ".repeat(m.saturating_sub(4)));
+        observe_capacity(o, m, &" ".repeat(m.saturating_sub(3)));
+    }
+    if tier != "quick" {
+        for m in caps {
+            for len in [255usize, 256, 257, 1000, 4096, 65535, 65536, 70000] {
+                observe_capacity(o, m, &"k".repeat(len));
+            }
+        }
+    } else {
+        for m in [0usize, 3, 4, 44, 100] {
+            for len in [255usize, 256, 4096] {
+                observe_capacity(o, m, &"k".repeat(len));
+            }
+        }
+        observe_capacity(o, 44, &"k".repeat(65536));
+        observe_capacity(o, 2, &"k".repeat(65536));
     }
 }
 
@@ -463,11 +864,84 @@ pub fn c16(o: &mut O, tier: &str, rng: &mut Rng) {
         );
         both(o, &t, "c16,separators");
     }
-    // offsets: every hour 00-29 x minute {00,30,59,60}, both signs
+    // offsets: every hour 00-29 x minute {00,01,30,59,60}, both signs
     for h in 0..30 {
-        for m in [0, 30, 59, 60] {
+        for m in [0, 1, 30, 59, 60] {
             for sg in ['+', '-'] {
                 both(o, &format!("2015-08-30T12:36:00{}{:02}:{:02}", sg, h, m), "c16,offsets");
+            }
+        }
+    }
+    // offsets whose hour field is zero: the sign must survive (-00:MM is MM minutes *west*); every minute
+    for m in 0..60 {
+        for sg in ['+', '-'] {
+            both(o, &format!("2015-08-30T12:36:00{}00:{:02}", sg, m), "c16,offset_zero_hour");
+            if m % 7 == 1 || m == 59 {
+                both(o, &format!("20150830T123600{}00{:02}", sg, m), "c16,offset_zero_hour");
+                both(o, &format!("2015-12-31T23:59:59{}00:{:02}", sg, m), "c16,offset_zero_hour");
+                both(o, &format!("2016-01-01T00:00:00.5{}00:{:02}", sg, m), "c16,offset_zero_hour");
+            }
+        }
+    }
+    // offsets without the colon for the hours that matter, and the extreme offsets at day / month / year ends
+    for h in [0, 1, 9, 10, 12, 14, 19, 20, 23] {
+        for m in [0, 1, 59] {
+            for sg in ['+', '-'] {
+                both(o, &format!("20150830T123600{}{:02}{:02}", sg, h, m), "c16,offsets_basic");
+                both(o, &format!("2016-02-29T23:59:59{}{:02}:{:02}", sg, h, m), "c16,offsets_boundary");
+                both(o, &format!("2015-03-01T00:00:00{}{:02}:{:02}", sg, h, m), "c16,offsets_boundary");
+                both(o, &format!("1999-12-31T23:59:59,999999999{}{:02}{:02}", sg, h, m), "c16,offsets_boundary");
+                both(o, &format!("0001-01-01T00:00:00{}{:02}:{:02}", sg, h, m), "c16,offsets_boundary");
+            }
+        }
+    }
+    // lenient spellings of one field (what `str::parse::<i32>` / `from_str_radix` would also read):
+    // a sign, a blank, missing or extra zero padding
+    {
+        let parts = ["2015", "08", "30", "12", "36", "00", "05", "30"];
+        for i in 0..8 {
+            let v = parts[i];
+            let n: u32 = v.parse().unwrap();
+            let mut alts = vec![
+                format!("+{}", n),
+                format!("+{}", v),
+                format!("+{}", &v[1..]),
+                format!("-{}", &v[1..]),
+                format!(" {}", n),
+                format!(" {}", &v[1..]),
+                format!("{} ", &v[1..]),
+                format!("{} ", v),
+                format!(" {}", v),
+                n.to_string(),
+                format!("0{}", v),
+                format!("{}_", &v[..v.len() - 1]),
+                format!("0x{}", &v[2.min(v.len())..]),
+            ];
+            alts.sort();
+            alts.dedup();
+            alts.retain(|a| a != v);
+            for alt in alts {
+                let mut p: Vec<String> = parts.iter().map(|s| s.to_string()).collect();
+                p[i] = alt;
+                both(o, &format!("{}-{}-{}T{}:{}:{}+{}:{}", p[0], p[1], p[2], p[3], p[4], p[5], p[6], p[7]), "c16,lenient_field");
+                both(o, &format!("{}{}{}T{}{}{}+{}{}", p[0], p[1], p[2], p[3], p[4], p[5], p[6], p[7]), "c16,lenient_field");
+                if i < 6 {
+                    both(o, &format!("{}{}{}T{}{}{}Z", p[0], p[1], p[2], p[3], p[4], p[5]), "c16,lenient_field");
+                }
+            }
+        }
+    }
+    // blanks and controls around (and inside) a valid text: only the spaces around a header value are not part of it
+    {
+        let blanks: [&[u8]; 14] = [b" ", b"\t", b"\n", b"\r", b"\r\n", b"\x0b", b"\x0c", b"\xa0", b"\x85", b"\0", b"\xc2\xa0", b"\xe2\x80\x83", b"\xef\xbb\xbf", b"  "];
+        for base in ["20150830T123600Z", "2015-08-30T12:36:00+05:30"] {
+            for w in blanks.iter() {
+                let b = base.as_bytes();
+                let cat = |xs: &[&[u8]]| -> Vec<u8> { xs.concat() };
+                for t in [cat(&[w, b]), cat(&[b, w]), cat(&[w, b, w]), cat(&[&b[..8], w, &b[8..]]), cat(&[&b[..b.len() - 1], w, &b[b.len() - 1..]]), cat(&[b" ", w, b, w, b" "])] {
+                    observe_iso(o, &t, false, "c16,blanks");
+                    observe_iso(o, &t, true, "c16,blanks");
+                }
             }
         }
     }
@@ -490,8 +964,33 @@ pub fn c16(o: &mut O, tier: &str, rng: &mut Rng) {
         "0000-01-01T00:00:00+23:59", "9999-12-31T23:59:59-23:59", "0000-01-01T00:00:00Z", "2015-08-30T12:36:00\u{e9}", "Sun, 30 Aug 2015 12:36:00 GMT",
         "2015-08-30T12:36:00+24:00", "2015-08-30T12:36:00+23:59", "2015-08-30T12:36:00-23:59", "2015-08-30T12:36:00+20:00", "2015-08-30T12:36:00-19:59",
         "20150830T123600,5Z", "20150830T123600.5,5Z", "２０１５0830T123600Z",
+        // zone designators that are not Z / +-hh[:]mm
+        "2015-08-30T12:36:00+05", "2015-08-30T12:36:00+5", "2015-08-30T12:36:00 Z", "2015-08-30T12:36:00UTC", "2015-08-30T12:36:00GMT", "2015-08-30T12:36:00+00", "2015-08-30T12:36:00-00",
+        "2015-08-30T12:36:00+05:30:00", "2015-08-30T12:36:00+053000", "2015-08-30T12:36:00+0530 ", "2015-08-30T12:36:00\u{2212}05:00", "2015-08-30T12:36:00\u{b1}00:00", "2015-08-30T12:36:00+-05:00",
+        "2015-08-30T12:36:00++05:00", "2015-08-30T12:36:00+05.30", "2015-08-30T12:36:00+05-30", "2015-08-30T12:36:00ZZ", "2015-08-30T12:36:00Z+00:00", "2015-08-30T12:36:00+00:00Z", "2015-08-30T12:36:00-0000",
+        "2015-08-30T12:36:00+0000", "2015-08-30T12:36:00-00:01", "2015-08-30T12:36:00+00:01", "2015-08-30T12:36:00-00:59", "2015-08-30T12:36:00-0030", "2015-08-30T12:06:00-00:30", "2015-08-30T13:06:00+00:30",
+        // reduced precision, other calendars, other separators
+        "2015-08-30T12:36Z", "2015-08-30T12Z", "2015-08-30TZ", "2015-08-30Z", "2015-08T12:36:00Z", "2015-242T12:36:00Z", "2015242T123600Z", "2015-W35-7T12:36:00Z", "2015W357T123600Z",
+        "2015/08/30T12:36:00Z", "2015.08.30T12:36:00Z", "2015-08-30_12:36:00Z", "2015-08-30 12:36:00Z", "2015-08-30T12.36.00Z", "2015-08-30T12-36-00Z", "2015:08:30T12:36:00Z", "2015-8-30T12:36:00Z",
+        "2015-08-3T12:36:00Z", "15-08-30T12:36:00Z", "015-08-30T12:36:00Z", "12015-08-30T12:36:00Z", "-2015-08-30T12:36:00Z", "2015-08-30T1:36:00Z", "2015-08-30T12:6:00Z", "2015-08-30T12:36:0Z",
+        "2015-08-30T12.5:00Z", "2015-08-30T12:36.5Z", "2015-08-30T12:36:00.5.5Z", "2015-08-30T12:36:00,Z", "2015-08-30T12:36:00.-5Z", "2015-08-30T12:36:00.+5Z", "2015-08-30T12:36:00. 5Z", "2015-08-30T12:36:00.5 Z",
+        "2015-08-30T12:36:00.123456789123456789Z", "2015-08-30T12:36:00.000000000999Z", "2015-08-30T12:36:00.9999999999999999999999999999999999999999Z", "2015-08-30T12:36:00.0000000000000000000000000000000000000001Z",
+        "2015-08-30T12:36:59.999999999Z", "2015-12-31T23:59:59.9999999995Z", "2015-08-30T12:36:00.000000001Z", "2015-08-30T12:36:00.0000000019Z",
+        // two texts, prefixes, suffixes
+        "20150830T123600Z20150830T123600Z", "20150830T123600Z,20150830T123600Z", "20150830T123600Z 20150830T123600Z", "x20150830T123600Z", "20150830T123600Zx", "20150830T123600Z.", "20150830T123600Z;", "\"20150830T123600Z\"",
+        "20150830T123600Z\t", "\t20150830T123600Z", "20150830T123600Z\u{a0}", "\u{a0}20150830T123600Z", "20150830T123600\u{e9}Z",
+        // calendar edges with offsets that move the instant across them
+        "2015-12-31T23:59:59-00:01", "2016-01-01T00:00:00+00:01", "2016-02-29T23:30:00-01:00", "2016-03-01T00:30:00+01:00", "2015-03-01T00:00:00+00:01", "2100-03-01T00:00:00+12:00", "2100-02-28T23:59:59-00:01",
+        "0001-01-01T00:00:00+00:01", "0000-01-01T00:00:00+00:01", "0000-03-01T00:00:00+00:01", "9999-12-31T23:59:59-00:01", "9999-12-31T23:59:59+23:59", "1970-01-01T00:00:00Z", "1970-01-01T00:00:00+00:01", "1969-12-31T23:59:59-00:01",
+        "1969-12-31T23:59:59.999999999Z", "2038-01-19T03:14:07Z", "2038-01-19T03:14:08Z", "2106-02-07T06:28:16Z", "1901-12-13T20:45:51Z", "0999-12-31T23:59:59Z", "0099-01-01T00:00:00Z", "0009-09-09T09:09:09+09:09",
+        "2015-04-31T00:00:00Z", "2015-06-31T00:00:00Z", "2015-09-31T00:00:00Z", "2015-11-31T00:00:00Z", "2015-02-30T00:00:00Z", "2015-00-10T00:00:00Z", "2015-10-00T00:00:00Z", "2015-01-32T00:00:00Z", "2015-13-01T00:00:00Z",
+        "2400-02-29T00:00:00Z", "2200-02-29T00:00:00Z", "0000-02-29T00:00:00Z", "0100-02-29T00:00:00Z", "0400-02-29T00:00:00Z", "0004-02-29T00:00:00Z",
     ] {
         both(o, t, "c16,fixed");
+    }
+    // texts that only the query carrier can deliver (control characters through escapes)
+    for t in ["20150830T123600Z\n", "\n20150830T123600Z", "20150830T123600Z\r\n", "20150830T123600Z\0", "\020150830T123600Z", "20150830T123600\nZ", "20150830\nT123600Z", "20150830T123600Z\x7f", "20150830T123600Z\x0b", "20150830T123600Z\x0c", " 20150830T123600Z", "20150830T123600Z "] {
+        observe_iso(o, t.as_bytes(), true, "c16,fixed_query_only");
     }
     // random strings over the date-time alphabet and single-character mutations of valid ones
     let n = match tier {
@@ -500,7 +999,10 @@ pub fn c16(o: &mut O, tier: &str, rng: &mut Rng) {
         _ => 5000,
     };
     let alpha: Vec<u8> = b"0123456789-:T.,+Z z".to_vec();
-    let valid = ["20150830T123600Z", "2015-08-30T12:36:00Z", "2015-08-30T12:36:00.123+05:30", "20150830T123600-0800", "2016-02-29T23:59:59,999999999Z"];
+    let valid = [
+        "20150830T123600Z", "2015-08-30T12:36:00Z", "2015-08-30T12:36:00.123+05:30", "20150830T123600-0800", "2016-02-29T23:59:59,999999999Z", "2015-08-30T12:36:00-00:30", "20151231T235959+0001",
+        "0001-01-01T00:00:00-23:59",
+    ];
     for i in 0..n {
         if i % 2 == 0 {
             let len = rng.below(26) as usize;
@@ -591,8 +1093,33 @@ pub fn replay_reqops(o: &mut O, f: &HashMap<String, String>) {
 
 pub fn reqops(o: &mut O, tier: &str, rng: &mut Rng) {
     let pool = ["content-type", "Content-Type", "CONTENT-TYPE", "x-amz-", "X-Amz-", "etag", "ETag", "host", "x", "", "X-Amz-Target", "x-amz-target"];
+    // names related by prefix / suffix / substring, by blanks, by non-ASCII case mappings (the
+    // containers fold ASCII case only), and exact duplicates in the initial lists
+    let pool2 = [
+        "x-amz-", "x-amz", "x-am", "x-", "x", "X", "x-amz-t", "x-amz-target", "X-AMZ-TARGET", "x-amz-target2", "amz-target", "target", "content-type", "content-typ", "ontent-type", "content-type ",
+        " content-type", "Content-Type ", "content-type\t", "content_type", "host", "Host", "HOST", "hos", "ost", ":authority", "\u{212a}", "k", "K", "\u{130}", "i", "I", "\u{131}", "stra\u{df}e", "STRASSE",
+        "\u{e9}", "\u{c9}", "a\u{30a}", "\u{e5}", "",
+    ];
+    // every ordered pair of operations on two related names, from the empty and from a seeded container
+    let quick = tier == "quick";
+    for (ai, a) in pool2.iter().enumerate() {
+        for (bi, b) in pool2.iter().enumerate() {
+            if quick && (ai * 7 + bi) % 5 != 0 {
+                continue;
+            }
+            let k = (ai + bi) % 3;
+            let (add, rem) = (k as u8, k as u8 + 3);
+            observe_reqops(o, &[vec![], vec![], vec![]], &[(add, a.to_string()), (add, b.to_string())]);
+            observe_reqops(o, &[vec![], vec![], vec![]], &[(add, a.to_string()), (rem, b.to_string()), (add, b.to_string())]);
+            let mut init: [Vec<String>; 3] = [vec![], vec![], vec![]];
+            init[k] = vec![a.to_string(), b.to_string(), a.to_string()];
+            observe_reqops(o, &init, &[(rem, b.to_string())]);
+            observe_reqops(o, &init, &[(add, b.to_ascii_uppercase()), (rem, a.to_ascii_lowercase()), (add, a.to_string())]);
+        }
+    }
     let n = if tier == "quick" { 250 } else { 5000 };
-    for _ in 0..n {
+    for i in 0..n {
+        let pool: &[&str] = if i % 3 == 2 { &pool2[..] } else { &pool[..] };
         let mut init: [Vec<String>; 3] = [vec![], vec![], vec![]];
         for l in init.iter_mut() {
             for _ in 0..rng.below(3) {
@@ -633,7 +1160,29 @@ pub fn hdrval(o: &mut O, tier: &str, rng: &mut Rng) {
         observe_hdrval(o, v, "c11,hdrval,fixed");
     }
     for b in 0u32..=255 {
-        observe_hdrval(o, &[b' ', b as u8, b' ', b' ', b as u8], "c11,hdrval,byte");
+        let b = b as u8;
+        observe_hdrval(o, &[b' ', b, b' ', b' ', b], "c11,hdrval,byte");
+        // the byte alone, leading, trailing, doubled, around a single space: only 0x20 is a blank
+        observe_hdrval(o, &[b], "c11,hdrval,byte_alone");
+        observe_hdrval(o, &[b, b'a'], "c11,hdrval,byte_lead");
+        observe_hdrval(o, &[b'a', b], "c11,hdrval,byte_trail");
+        observe_hdrval(o, &[b'a', b, b, b'c'], "c11,hdrval,byte_double");
+        observe_hdrval(o, &[b'a', b' ', b, b' ', b'c'], "c11,hdrval,byte_spaced");
+        observe_hdrval(o, &[b, b' '], "c11,hdrval,byte_then_space");
+        observe_hdrval(o, &[b' ', b], "c11,hdrval,space_then_byte");
+    }
+    // runs of every length, single trailing / leading space, only spaces
+    for k in 0..6usize {
+        let sp = " ".repeat(k);
+        for v in [format!("{}a", sp), format!("a{}", sp), format!("a{}b", sp), format!("{}a{}b{}", sp, sp, sp), sp.clone(), format!("a{}b c", sp), format!("a b{}c", sp), format!("{}\t{}", sp, sp), format!("\t{}a", sp), format!("a{}\t", sp)] {
+            observe_hdrval(o, v.as_bytes(), "c11,hdrval,runs");
+        }
+    }
+    for v in [
+        &b"a, b"[..], b"a ,b", b"a , b", b",", b" , ", b"a,,b", b", a", b"a ,", b"\"a  b\"", b"\"  \"", b"a\x0b b", b"a \x0c b", b"\xa0a\xa0", b" \xa0 ", b"\xc2\xa0a", b"a\xe2\x80\x83b",
+        b"a\r\nb", b"a\n b", b" \n ", b"\0", b" \0 ", b"a\0 \0b", b"  a  b  c  d  e  f  ", b"a b c d e f g h i j k l m n o p", b"                                a", b"a                                ",
+    ] {
+        observe_hdrval(o, v, "c11,hdrval,fixed2");
     }
     let n = if tier == "quick" { 400 } else { 8000 };
     for _ in 0..n {
